@@ -253,7 +253,7 @@ fn synth_step(std: &ZkStdLib, layouter: &mut impl Layouter<F>, step: &Step, v: V
                 Path::Derived(0) => {
                     let x: AssignedNative<F> = std.assign(
                         layouter,
-                        pick!(v, JScalar).map(|s| mzkh::fe_from_big::<F>(&mzkh::fe_big(&s))),
+                        pick!(v, JScalar).map(|s| mzkh::fe_from_big::<F>(&crate::vals::big_of(&s))),
                     )?;
                     let s = chip.convert(layouter, &x)?;
                     chip.constrain_as_public_input(layouter, &s)
@@ -261,7 +261,7 @@ fn synth_step(std: &ZkStdLib, layouter: &mut impl Layouter<F>, step: &Step, v: V
                 Path::Derived(n) => {
                     let n = n as usize;
                     let bytes_val: Value<Vec<u8>> = pick!(v, JScalar).map(|s| {
-                        let mut b = mzkh::fe_big(&s).to_bytes_le();
+                        let mut b = crate::vals::big_of(&s).to_bytes_le();
                         b.resize(n, 0);
                         b
                     });
